@@ -20,7 +20,36 @@ def _err(e):
 def impl(case):
     if case["kind"] == "adaptive":
         return impl_adaptive(case)
+    if case["kind"] == "cadence":
+        return impl_cadence(case)
     return impl_solve(case) if case["kind"] == "solve" else impl_run(case)
+
+def impl_cadence(case):
+    """non-dyadic cadence stream: x' = 1 from x = 0 with decimal step sizes; every returned row is decoded into the
+    INTEGER pair (round(time/dt), round(x/dt)) = (step number the index claims, number of steps actually taken)"""
+    import numpy as np
+    from pyr import reset_pyrates
+    reset_pyrates()
+    try:
+        from pyrates import OperatorTemplate, NodeTemplate, CircuitTemplate
+        op = OperatorTemplate(name="op", equations=["x' = k*x + c"], variables={"x": "output(0.0)", "k": 0.0, "c": 1.0})
+        circ = CircuitTemplate(name="c", nodes={"n0": NodeTemplate(name="n0", operators=[op])})
+        dt = float(Fr(case["dt"]))
+        try:
+            res = circ.run(simulation_time=float(Fr(case["T"])), step_size=dt, sampling_step_size=float(Fr(case["dts"])), solver=case["solver"],
+                           outputs={"o0": "n0/op/x"}, cutoff=0.0, vectorize=case["vectorize"], in_place=False, verbose=False, clear=True,
+                           float_precision="float64", backend=case["backend"])
+        except (IndexError, ZeroDivisionError, ValueError) as e:
+            return _err(e)
+        rows = []
+        for t, x in zip(res.index.values, np.asarray(res.values, dtype=np.float64).reshape(-1)):
+            a, b = float(t) / dt, float(x) / dt
+            if abs(a - round(a)) > 1e-6 or abs(b - round(b)) > 1e-6:      # not a whole number of steps: cannot be decoded
+                return {"raised": "NotAStepCount", "msg": f"t/dt={a!r} x/dt={b!r}"}
+            rows.append([f"{int(round(a))}/1", f"{int(round(b))}/1"])
+        return {"rows": rows}
+    finally:
+        reset_pyrates()
 
 def impl_adaptive(case):
     """support stream: run(solver='scipy', rtol, atol) on x' = k*x + c; the harness compares with the closed form"""
@@ -290,6 +319,16 @@ def gen_run(rng):
             for n in case["nodes"]:
                 n["k"] = "0"
 
+DECIMAL_STEPS = [Fr(1, 10000), Fr(1, 1000), Fr(1, 100), Fr(1, 40), Fr(1, 20), Fr(1, 10), Fr(3, 10)]
+def gen_cadence(rng):
+    """decimal (non-dyadic) step sizes: dts/dt, T/dt, T/dts land just below or above the integer in floating point"""
+    dt = rng.choice(DECIMAL_STEPS)
+    m = rng.choice([3, 6, 7, 12, 13, 29]) if rng.random() < 0.4 else rng.randint(1, 40)
+    rows = rng.randint(2, 6)
+    backend, solver = rng.choice([("default", "euler"), ("default", "heun"), ("torch", "euler"), ("jax", "euler"), ("jax", "euler"), ("jax", "heun"), ("jax", "heun")])
+    return dict(kind="cadence", solver=solver, backend=backend, dt=str(dt), dts=str(m * dt), T=str(rows * m * dt), cutoff="0", t0=0,
+                nodes=[dict(k="0", c="1", x0="0")], cols=[0], vectorize=rng.random() < 0.5, aliased=True)
+
 def gen_adaptive(rng):
     # first_step = dt: keep |k|*dt <= 1/4 -- embedded error estimators have exact zeros at special h*lambda (Bogacki-Shampine
     # RK23: -z^3(1+z)/48, zero at h*lambda = -1, where scipy accepts an O(1e-1) step at any tolerance; not PyRates' doing)
@@ -330,7 +369,7 @@ HEADER = """From Coq Require Import List ZArith QArith Qcanon Bool Arith.
 From PV Require Import History Solver Corr.
 Import ListNotations.
 Local Open Scope nat_scope.
-Record tcase := { isrun : bool; isjax : bool; sv : solver; cT : Qc; cdt : Qc; cdts : option Qc; ccut : Qc; ccols : list nat;
+Record tcase := { isrun : bool; isjax : bool; cscaled : bool; sv : solver; cT : Qc; cdt : Qc; cdts : option Qc; ccut : Qc; ccols : list nat;
                   cy0 : row; crhs : lin_rhs; ct0 : nat }.
 Definition dts_of c := match cdts c with Some d => d | None => cdt c end.
 (* the jax backend's own loops (lax.scan: round(T/dts) outer iterations of store_step inner steps) never overflow
@@ -350,13 +389,16 @@ Definition jax_run (c : tcase) : outcome :=
   else Rows (map (fun k => (NtoQc k * d)%Qc :: pick (ccols c) (fst (traj (jax_step (lin_f (crhs c)) (sv c) (cdt c)) 0 0 (cy0 c) 0 (k * rnd (d / cdt c)))))
                  (filter (fun k => Qcleb (ccut c) (NtoQc k * d)%Qc) (seq 0 n))).
 Definition time_dependent (c : tcase) : bool := negb (forallb (fun q => Qeq_bool (this q) 0) (vt (crhs c))).
-Definition implO (c : tcase) : outcome :=
+(* cadence stream: times and values are reported in units of dt (whole numbers of steps) *)
+Definition scale (c : tcase) (o : outcome) : outcome :=
+  if cscaled c then match o with Rows l => Rows (map (map (fun v => (v / cdt c)%Qc)) l) | o' => o' end else o.
+Definition implO (c : tcase) : outcome := scale c (
   if isjax c then jax_run c else
   if isrun c then run_model (lin_f (crhs c)) (sv c) (cT c) (cdt c) (cdts c) (ccut c) (ccols c) (cy0 c) 0
-  else solve (lin_f (crhs c)) (sv c) (cT c) (cdt c) (dts_of c) (cy0 c) 0 (ct0 c).
-Definition specO (c : tcase) : outcome :=
+  else solve (lin_f (crhs c)) (sv c) (cT c) (cdt c) (dts_of c) (cy0 c) 0 (ct0 c)).
+Definition specO (c : tcase) : outcome := scale c (
   if isrun c then Rows (spec_run (lin_f (crhs c)) (sv c) (cT c) (cdt c) (cdts c) (ccut c) (ccols c) (cy0 c) 0)
-  else Rows (spec_rows (lin_f (crhs c)) (sv c) (cT c) (cdt c) (dts_of c) (cy0 c) 0 (ct0 c)).
+  else Rows (spec_rows (lin_f (crhs c)) (sv c) (cT c) (cdt c) (dts_of c) (cy0 c) 0 (ct0 c))).
 (* a Short record is compared on its written rows and on the number of allocated rows *)
 Definition agree (m r : outcome) : bool :=
   match m, r with
@@ -382,9 +424,9 @@ def coq_case(case, out):
     A, b, vn, vt, y0 = to_lin(case)
     row = lambda v: clist([cq(x) for x in v])
     rhs = f"{{| mA := {clist([row(r) for r in A])}; vb := {row(b)}; vn := {row(vn)}; vt := {row(vt)} |}}"
-    isrun = case["kind"] == "run"
+    isrun = case["kind"] in ("run", "cadence")
     cols = case["cols"] if isrun else list(range(len(y0)))
-    t = (f"{{| isrun := {cbool(isrun)}; isjax := {cbool(case.get('backend') == 'jax')}; sv := {'Euler' if case['solver'] == 'euler' else 'Heun'}; "
+    t = (f"{{| isrun := {cbool(isrun)}; isjax := {cbool(case.get('backend') == 'jax')}; cscaled := {cbool(case['kind'] == 'cadence')}; sv := {'Euler' if case['solver'] == 'euler' else 'Heun'}; "
          f"cT := {cq(case['T'])}; cdt := {cq(case['dt'])}; cdts := {copt(case['dts'], cq)}; ccut := {cq(case.get('cutoff', 0))}; "
          f"ccols := {clist([cnat(c) for c in cols])}; cy0 := {row(y0)}; crhs := {rhs}; ct0 := {cnat(case.get('t0', 0))} |}}")
     return f"({t}, {coq_outcome(out)})"
@@ -430,7 +472,7 @@ def fails(ctx, case, tag, strict=False):
     return bool(res[1]), r
 
 def shrink(ctx, case):
-    if case["kind"] == "adaptive":
+    if case["kind"] in ("adaptive", "cadence"):
         return case
     best, budget = case, 10
     def attempt(cand, tag):
@@ -459,7 +501,7 @@ def shrink(ctx, case):
 def check(ctx):
     pr = proof_gate(ctx, NEEDS)
     problem = proof_problem(pr)
-    n_solve, n_run = (190, 130) if ctx.tier == "quick" else (3000, 2000)
+    n_solve, n_run = (160, 120) if ctx.tier == "quick" else (3000, 2000)
     if problem:
         n_solve *= 4; n_run *= 4
     if ctx.replay:
@@ -467,6 +509,7 @@ def check(ctx):
         cases = [rp["case"]] if "case" in rp else []
     else:
         cases = (load_corpus("C03") + [gen_solve(ctx.rng) for _ in range(n_solve)] + [gen_run(ctx.rng) for _ in range(n_run)] +
+                 [gen_cadence(ctx.rng) for _ in range(45 if ctx.tier == "quick" else 600)] +
                  [gen_adaptive(ctx.rng) for _ in range(12 if ctx.tier == "quick" else 120)])
     cases = [{k: v for k, v in c.items() if k not in ("id", "comment")} for c in cases]
     outs = run_impl(ctx, "c03", "impl", cases)
@@ -511,7 +554,9 @@ def check(ctx):
         k = "rows" if isinstance(r, dict) and ("rows" in r or "values" in r) else (r.get("raised") or r.get("err")) if isinstance(r, dict) else "?"
         outcome_hist[k] = outcome_hist.get(k, 0) + 1
     hist = dict(kind=dict(solve=sum(1 for c in cases if c["kind"] == "solve"), run=sum(1 for c in cases if c["kind"] == "run"),
-                          adaptive_support=len(adapt), run_with_time_dependent_input=sum(1 for c in cases if c.get("inp"))),
+                          adaptive_support=len(adapt), decimal_cadence=sum(1 for c in cases if c["kind"] == "cadence"),
+                          decimal_cadence_by_loop={f"{b}/{sv}": sum(1 for c in cases if c["kind"] == "cadence" and c["backend"] == b and c["solver"] == sv)
+                                                   for b, sv in (("default", "euler"), ("default", "heun"), ("torch", "euler"), ("jax", "euler"), ("jax", "heun"))}, run_with_time_dependent_input=sum(1 for c in cases if c.get("inp"))),
                 time_dependent_by_backend={b: sum(1 for c in cases if c.get("inp") and c.get("backend", "default") == b) for b in ("default", "torch", "jax")},
                 store_step_gt_1_time_dependent_by_backend={b: sum(1 for c in cases if c.get("inp") and store_step(c) > 1 and c.get("backend", "default") == b) for b in ("default", "torch", "jax")},
                 output_form={f: sum(1 for c in cases if c.get("oform") == f) for f in ("dict", "list", "wild")},
